@@ -13,6 +13,14 @@ from .common import dispatchers
 
 
 def run(ck: Check, prog: Program) -> None:
+    from .common import dispatcher_program
+    prog = dispatcher_program(prog)
+    # retention findings are keyed by the function that hands the per-request value to the long-lived sink: private helpers
+    # extracted from the validators' public methods are inlined into them so that the call site keeps its identity
+    from ..inline import inlined_program
+    vcallers = [m.qualname for ci in prog.classes.values() if ci.module.name.startswith('pjrpc.server.validators')
+                for m in ci.methods.values() if not m.name.startswith('_') or m.name in ('__init__', '__call__')]
+    prog = inlined_program(prog, vcallers)
     roles = dispatchers(prog)
     ck.explain('Effect and retention analysis over the whole call tree of dispatch (both dispatchers; resolved callees, '
                'constructors, property getters): (1) no per-request value — the context, the parsed request, params, view '
